@@ -118,7 +118,7 @@ class Ctx:
         s.set('timeout', timeout_ms)
         s.add(*sub)
         s.add(e)
-        r = str(s.check())
+        r = _guarded_check(s, timeout_ms / 1000.0)
         self.solver_s += time.time() - t0
         if r == 'unsat':
             self.quick_hits += 1
@@ -132,13 +132,14 @@ class Ctx:
         self.queries += 1
         t0 = time.time()
         s = self.solver
+        lim = (timeout_ms or self.timeout_ms) / 1000.0
         s.push()
         try:
             for e in extra:
                 s.add(e)
             if timeout_ms is not None:
                 s.set('timeout', timeout_ms)
-            r = str(s.check())
+            r = _guarded_check(s, lim)
             m = s.model() if r == 'sat' else None
         finally:
             s.pop()
@@ -150,7 +151,7 @@ class Ctx:
             s2.set('timeout', timeout_ms or self.timeout_ms)
             s2.add(*self.path)
             s2.add(*extra)
-            r = str(s2.check())
+            r = _guarded_check(s2, lim)
             m = s2.model() if r == 'sat' else None
         self.solver_s += time.time() - t0
         if r == 'unknown':
@@ -159,6 +160,22 @@ class Ctx:
 
     def feasible(self, e):
         return self.check(e)[0]
+
+
+def _guarded_check(solver, limit_s):
+    """solver.check() with a watchdog: z3's own timeout is not always honoured inside long
+    non-linear real-arithmetic steps, so the context is interrupted from a timer thread"""
+    import threading
+    t = threading.Timer(limit_s * 1.5 + 2.0, z3.main_ctx().interrupt)
+    t.daemon = True
+    t.start()
+    try:
+        r = str(solver.check())
+    except z3.Z3Exception:
+        r = 'unknown'
+    finally:
+        t.cancel()
+    return r
 
 
 def _zvars(e):
@@ -1153,6 +1170,72 @@ class SC(numbers.Complex):
 
 
 # ---------------------------------------------------------------------------
+# symbolic option values (enumerated arguments such as mode / side / ord)
+# ---------------------------------------------------------------------------
+class SymInt:
+    """symbolic python int used only in comparisons (z3 Int)"""
+    __hash__ = None
+
+    def __init__(self, name):
+        self.name = name
+        self.e = z3.Int(name)
+        CTX.zvar_by_name[name] = self.e
+
+    def _c(self, o, f):
+        if isinstance(o, SymInt):
+            return SymBool(f(self.e, o.e))
+        if isinstance(o, (bool, int, _np.integer)):
+            return SymBool(f(self.e, int(o)))
+        if isinstance(o, (float, _np.floating)) and float(o) == int(o):
+            return SymBool(f(self.e, int(o)))
+        return None
+
+    def __eq__(self, o):
+        r = self._c(o, lambda a, b: a == b)
+        return False if r is None else r
+
+    def __ne__(self, o):
+        r = self._c(o, lambda a, b: a != b)
+        return True if r is None else r
+
+    def __lt__(self, o): return self._c(o, lambda a, b: a < b)
+    def __le__(self, o): return self._c(o, lambda a, b: a <= b)
+    def __gt__(self, o): return self._c(o, lambda a, b: a > b)
+    def __ge__(self, o): return self._c(o, lambda a, b: a >= b)
+    def __index__(self): raise Unsupported('symbolic int used as an index')
+    def __int__(self): raise Unsupported('int() of a symbolic int')
+    def __format__(self, spec): return '<symint %s>' % self.name
+    def __repr__(self): return '<symint %s>' % self.name
+
+
+class SymStr:
+    """symbolic python str used only in (in)equality tests (z3 String)"""
+    __hash__ = None
+
+    def __init__(self, name):
+        self.name = name
+        self.e = z3.String(name)
+        CTX.zvar_by_name[name] = self.e
+
+    def __eq__(self, o):
+        if isinstance(o, SymStr):
+            return SymBool(self.e == o.e)
+        if isinstance(o, str):
+            return SymBool(self.e == z3.StringVal(o))
+        return False
+
+    def __ne__(self, o):
+        r = self.__eq__(o)
+        return sb_not(r)
+
+    def lower(self): raise Unsupported('str.lower() of a symbolic string')
+    def upper(self): raise Unsupported('str.upper() of a symbolic string')
+    def __format__(self, spec): return '<symstr %s>' % self.name
+    def __repr__(self): return '<symstr %s>' % self.name
+    def __str__(self): return '<symstr %s>' % self.name
+
+
+# ---------------------------------------------------------------------------
 # variables, evaluation, exploration
 # ---------------------------------------------------------------------------
 def var(name):
@@ -1207,6 +1290,10 @@ def eq0_term(x):
 def model_value(m, zv, digits=40):
     """z3 model value -> Fraction (exact if rational, else a close rational)"""
     v = m.eval(zv, model_completion=True)
+    if z3.is_string_value(v):
+        return v.as_string()
+    if z3.is_int_value(v):
+        return v.as_long()
     if z3.is_fp(v):
         import struct
         if not isinstance(v, z3.FPNumRef):
